@@ -1244,6 +1244,34 @@ sexp sexp_apply (sexp ctx, sexp proc, sexp args) {
     _ARG1 = tmp1;
     break;
   case SEXP_OP_CALLCC:
+    if (*ip == SEXP_OP_RET && sexp_unbox_fixnum(stack[fp]) == 1) {
+      /* %call/cc in tail position of a unary procedure (i.e. in
+         call-with-current-continuation): R7RS 3.5 requires the receiver
+         to be called by a tail call.  The continuation of the %call/cc
+         is then the caller's, which is what the current frame
+         [arg, 1, ip, self, fp] already describes, so capture the stack
+         up to and including that frame and reuse it for the call as
+         TAIL_CALL does. */
+      tmp1 = _ARG1;
+      sexp_context_top(ctx) = top;
+      tmp2 = sexp_make_vector(ctx, SEXP_ONE, SEXP_UNDEF);
+      sexp_vector_set(tmp2, SEXP_ZERO, sexp_save_stack(ctx, stack, fp+4));
+      stack[fp-1] = sexp_make_procedure(ctx,
+                                        SEXP_ZERO,
+                                        SEXP_ONE,
+                                        sexp_global(ctx, SEXP_G_RESUMECC_BYTECODE),
+                                        tmp2);
+      i = 1;
+      tmp2 = stack[fp+3];                        /* previous fp */
+      self = stack[fp+2];
+      bc = sexp_procedure_code(self);
+      cp = sexp_procedure_vars(self);
+      ip = (sexp_bytecode_data(bc)+sexp_unbox_fixnum(stack[fp+1])) - sizeof(sexp);
+      top = fp;
+      _PUSH(tmp1);
+      fp = sexp_unbox_fixnum(tmp2);
+      goto make_call;
+    }
     stack[top] = SEXP_ONE;
     stack[top+1] = sexp_make_fixnum(ip-sexp_bytecode_data(bc));
     stack[top+2] = self;
